@@ -2590,6 +2590,9 @@ def _along_axis(name, a, axis, kw, shape_rule):
             # instantiate on the CELL (whenever a cell of the mask is mentioned), not on whatever z3 would pick
             pats = [cellt] if z3.is_app(cellt) and cellt.decl().kind() == z3.Z3_OP_UNINTERPRETED else []
             c.add(z3.ForAll(vs, body, patterns=pats) if pats else z3.ForAll(vs, body))
+    if base in ("argmin", "argmax") and axis is None and a.ndim >= 1:
+        # range law for the flattened form: a position among all the cells
+        c.add(F >= 0, F < zint(_product(list(a._shape))))
     if not out_shape:
         return _wrap_elem(F, elem)           # NumPy returns a scalar, not a 0-d array
     return ndarray.from_fn(content, out_shape, kind, elem)
@@ -2679,4 +2682,11 @@ all, any = _all_nd, _any_nd
 
 
 def unravel_index(index, shape):
-    raise OutOfSubset("np.unravel_index")
+    """np.unravel_index of ONE flat position (row-major): the coordinate whose row-major position is `index`"""
+    if isinstance(index, ndarray):
+        raise OutOfSubset("np.unravel_index of an array of positions")
+    shape = [_raw(s_) for s_ in shape]
+    if len(shape) == 1:
+        return (mkint(zint(index)),)
+    ctx().lib("reshape/row-major")
+    return tuple(mkint(t) for t in unrowmajor(zint(index), shape))
